@@ -9,7 +9,8 @@ namespace Tbox.C12
 request has been seen (this is what the patched feed loop guarantees, `C12_no_request_after_close`),
 a response can only be committed for a request that was delivered, and — the send-side contract
 of BufferedFd assumed here (property C06) — send-complete is reported only when every byte handed
-to `send` has been written to the socket. Peer close (`drop`) and kernel progress may occur anywhere. -/
+to `send` has been written to the socket. Peer close (`drop`), peer half-close, write errors and
+kernel progress may occur anywhere. -/
 def traceOk : Pipe → List PipeOp → Bool
   | _, [] => true
   | p, op :: ops =>
@@ -18,18 +19,14 @@ def traceOk : Pipe → List PipeOp → Bool
       | .commit i _ => decide (i < p.reqIndex)
       | .sendComplete => !p.valid || decide (p.sent = p.handed.length)
       | .drop => true
-      | .kernel _ => true) && traceOk (p.step op) ops
+      | .kernel _ => true
+      | .writeError => true
+      | .halfClose => true) && traceOk (p.step op) ops
 
 /-- responses were written in request order, each index once: indices 0,1,…,n-1 -/
 def InOrderOnce (written : List (Nat × Bytes)) (n : Nat) : Prop := written.map (·.1) = List.range n
 
 /-! ### well-formed requests on the wire (what a client writes) -/
-
-/-- decimal digits of `n`, most significant first -/
-def decimal (n : Nat) : Bytes :=
-  if n < 10 then [UInt8.ofNat (48 + n)] else decimal (n / 10) ++ [UInt8.ofNat (48 + n % 10)]
-termination_by n
-decreasing_by omega
 
 /-- the wire form of a request with a declared body length -/
 structure WireReq where
@@ -39,8 +36,6 @@ structure WireReq where
   headers : List (Bytes × Bytes)    -- besides Content-Length, which `encode` appends
   body : Bytes
 deriving Repr
-
-def hdrLine (kv : Bytes × Bytes) : Bytes := kv.1 ++ 58 :: 32 :: (kv.2 ++ [13, 10])
 
 def contentLengthHdr (w : WireReq) : Bytes × Bytes := (ascii "Content-Length", decimal w.body.length)
 
@@ -80,5 +75,63 @@ connection, each with its "closes" flag and "length declared" = true -/
 def expectedReqs (markP : Req → Bool) : List WireReq → List (Req × Bool × Bool)
   | [] => []
   | w :: ws => if markP w.toReq then [(w.toReq, true, true)] else (w.toReq, false, true) :: expectedReqs markP ws
+
+/-! ### an independent, minimal HTTP response reader (what a client does with the bytes) -/
+
+structure ParsedResp where
+  version : Bytes
+  status : Bytes                      -- "200 OK"
+  headers : List (Bytes × Bytes)      -- in wire order, Content-Length included
+  body : Bytes
+deriving DecidableEq, Repr
+
+/-- `key ": " value` -/
+def splitColonSp (line : Bytes) : Option (Bytes × Bytes) :=
+  match line.dropWhile (· != 58) with
+  | 58 :: 32 :: v => some (line.takeWhile (· != 58), v)
+  | _ => none
+
+/-- header lines up to the blank line -/
+def respHeaders : Nat → Bytes → Option (List (Bytes × Bytes) × Bytes)
+  | 0, _ => none
+  | f + 1, s =>
+    match splitCRLF s with
+    | none => none
+    | some (line, after) =>
+      if line.isEmpty then some ([], after)
+      else match splitColonSp line with
+        | none => none
+        | some kv => (respHeaders f after).map fun (hs, r) => (kv :: hs, r)
+
+def digitsToNat (v : Bytes) : Option Nat :=
+  if v.isEmpty then none else
+  v.foldl (fun (acc : Option Nat) (c : UInt8) =>
+    match acc with
+    | none => none
+    | some r => if 48 ≤ c && c ≤ 57 then some (r * 10 + (c.toNat - 48)) else none) (some 0)
+
+/-- status line, headers, and exactly Content-Length bytes of body (nothing may follow) -/
+def parseResponse (s : Bytes) : Option ParsedResp :=
+  match splitCRLF s with
+  | none => none
+  | some (line, after) =>
+    match line.dropWhile (· != 32) with
+    | 32 :: st =>
+      match respHeaders (after.length + 1) after with
+      | none => none
+      | some (hs, rest) =>
+        match hs.getLast? with
+        | none => none
+        | some (k, v) =>
+          if k != ascii "Content-Length" then none
+          else match digitsToNat v with
+            | none => none
+            | some n => if rest.length = n then some ⟨line.takeWhile (· != 32), st, hs, rest⟩ else none
+    | _ => none
+
+/-- a response value whose rendering is unambiguous: header keys without ':' and CR, values
+without CR (version and status text come from the tables) -/
+def Respond.printable (r : Respond) : Bool :=
+  r.headers.all fun kv => kv.1.all (· != 58) && kv.1.all (· != 13) && kv.2.all (· != 13)
 
 end Tbox.C12
